@@ -23,9 +23,27 @@ EXPLANATION = (
     "must_be_file type gates, and returns the re-packed children. (5) MetadataSetter.modify stores only under "
     "'name in children', the same key, the same child, metadata updated from the existing entry. (6) every "
     "DirectoryNode operation with an overwrite parameter forwards it to Adder(..) / set_node(..). "
+    "Added by the gap review: (1') ExistingChildError is raised only for an existing name with overwrite falsy or with "
+    "overwrite == ONLY_FILES and an existing directory; a name not in the directory gets fresh (None) metadata of the "
+    "same iteration and no local of the loop is read before the iteration assigned it; the child is replaced by its "
+    "read-only form only after the metadata's 'no-write' was seen truthy (also in MetadataSetter); Adder.__init__ "
+    "replaces the given entries only when None. (2') the old metadata is discarded only when seen None; a 'linkcrtime' "
+    "not taken from the clock is known not to be None; every returning path stored a 'linkcrtime' or saw one; when "
+    "the caller's metadata was seen not None it is what is returned. (3') the new name of a move is a default only "
+    "when the caller's was seen None. (4') Deleter.modify returns without deleting only for an absent name, raises "
+    "NoSuchChildError only for an absent name with must_exist, never succeeds for absent + first_time + must_exist, and "
+    "raises ChildOfWrongTypeError only for (must_be_directory and file) or (must_be_file and directory). (7) every "
+    "operation building an Adder / Deleter / MetadataSetter passes its same-named arguments on, hands modifier.modify "
+    "to self._node.modify and returns that Deferred; an Adder built without entries is given every item (each loop "
+    "iteration, from that iteration's values) through Adder.set_node, which keeps (node, metadata) under the name; "
+    "create_subdirectory registers its linking callback on the Deferred it returns. "
     "Undecided: the dict semantics of Python, normalisation of names (C19), retry/merge behaviour of "
-    "MutableFileNode.modify under contention, clock values.")
-TECHNIQUE = "static analysis: CFG x fact monitor over modifier bodies, Deferred registration order, argument forwarding"
+    "MutableFileNode.modify under contention (incl. what first_time means on a retry), clock values, the value a "
+    "successful operation's Deferred fires with, the NotWriteableError gates of read-only directories, the pre-1.4.0 "
+    "'ctime' -> 'linkcrtime' migration, whether a 'no-write' child is actually stored read-only (only the converse is "
+    "decided), and the contents given to a new subdirectory.")
+TECHNIQUE = ("static analysis: CFG x fact monitor over modifier bodies, per-iteration definedness of loop locals, "
+             "Deferred registration order, argument forwarding")
 
 MOD = "dirnode"
 DN = MOD + ":DirectoryNode"
@@ -232,6 +250,26 @@ def _loop_stale_uses(fn, cfg, it):
                 seen.add((nid, name))
                 out.append((n, name, witness(cfg, parent, (nid, st))))
     return out
+
+
+def _returned(cfg, fnorm, rn):
+    """The expression a return node yields, following plain-name copies and a unique reaching assignment."""
+    v = rn.ast.value
+    if v is None:
+        return None
+    defs = fnorm.env_at(rn).defs
+    for _ in range(4):
+        if isinstance(v, ast.Name) and isinstance(defs.get(v.id), ast.Name):
+            v = defs[v.id]
+    if isinstance(v, ast.Name):
+        ds = fnorm.rd.get(rn.id, {}).get(v.id) or ()
+        if len(ds) == 1:
+            (d,) = tuple(ds)
+            if d >= 0:
+                av = assign_value(cfg.nodes[d], v.id)
+                if isinstance(av, ast.Call) and call_tail(av) in ("succeed", "fail"):
+                    return av
+    return v
 
 
 def _mentions(e, name):
@@ -473,8 +511,8 @@ def run(ctx: Context):
         if not rets:
             raise AnchorVanished("update_metadata has no return")
         for rn in rets:
-            rv = rn.ast.value
-            if not r.require(isinstance(rv, ast.Name), fn, fn.loc(rn.ast), "update_metadata returns %s" % src(fn, rv)):
+            rv = fnorm.resolve(rn, rn.ast.value) if rn.ast.value is not None else None
+            if not r.require(isinstance(rv, ast.Name), fn, fn.loc(rn.ast), "update_metadata returns %s" % src(fn, rn.ast.value)):
                 continue
             R = rv.id
             r.site(fn, rn.ast, "returned metadata")
@@ -558,6 +596,19 @@ def run(ctx: Context):
                 r.violation(fn, fn.loc(n.ast), "'linkcrtime' is set to %s, which is neither the time %s of this update nor "
                             "known to be a recorded time (it can be None: the entry never gets a link-creation time; "
                             "path: %s)" % (src(fn, v), P2, w.brief()), w)
+        # (g) every returning path leaves a link-creation time behind: it stores one or saw that there is one
+        crt_ids = {n.id for (n, c, k, v) in crt}
+        crt_conts = {fnorm.norm(n, c) for (n, c, k, v) in crt}
+
+        def has_crt(m, lab):
+            f = fnorm.edge_fact(m, lab)
+            return bool(f) and f[0] == "in" and f[1] == repr("linkcrtime") and f[2] in crt_conts
+        for (t, w) in find_path_avoiding(cfg, lambda x: x.kind == "exit",
+                                         gate_node=lambda x: x.id in crt_ids or any(
+                                             cc.args and _const_key(cc.args[0], "linkcrtime") for cc in calls_at(x, "setdefault")),
+                                         gate_edge=has_crt):
+            r.violation(fn, fn.loc(), "update_metadata can return without the entry having a 'linkcrtime' (neither stored nor "
+                        "seen to be present; path: %s)" % w.brief(), w)
         # (f) the caller's metadata, when given, is what is stored
         repl_ids = {n.id for n in repl}
 
@@ -591,9 +642,9 @@ def run(ctx: Context):
         NP = ps[1]
         cfg = fn.cfg()
         fnorm = FlowNorm(fn)
-        rets = [n for n in cfg.find(is_return) if isinstance(n.ast.value, ast.Name)]
+        rets = [n for n in cfg.find(is_return) if isinstance(_returned(cfg, fnorm, n), ast.Name)]
         regs_all = registrations(fn)
-        dvars = {n.ast.value.id for n in rets} & {x.recv for x in regs_all}
+        dvars = {_returned(cfg, fnorm, n).id for n in rets} & {x.recv for x in regs_all}
         if len(dvars) != 1:
             raise AnchorVanished("move_child_to: the returned Deferred with the callback chain was not found")
         dv = dvars.pop()
@@ -724,8 +775,8 @@ def run(ctx: Context):
             r.violation(fn, fn.loc(t.ast), "a rename onto the same name in the same directory is not short-circuited: "
                         "the child is re-linked and then deleted (path: %s)" % w.brief(), w)
             break
-        shortcuts = [n for n in cfg.find(is_return) if isinstance(n.ast.value, ast.Call)
-                     and call_tail(n.ast.value) in ("succeed",)]
+        shortcuts = [n for n in cfg.find(is_return) if isinstance(_returned(cfg, fnorm, n), ast.Call)
+                     and call_tail(_returned(cfg, fnorm, n)) in ("succeed",)]
         for sn in shortcuts:
             r.site(fn, sn.ast, "shortcut return")
 
@@ -1094,7 +1145,7 @@ def run(ctx: Context):
                     if not rets:
                         r.violation(g, g.loc(wn.ast), "%s does not return after starting the write" % short(g))
                     for rn in rets:
-                        rv = rn.ast.value
+                        rv = _returned(gcfg, gnorm, rn)
                         ok = rv is not None and _contains_modify_call(rv)
                         if not ok and isinstance(rv, ast.Name):
                             ok = _last_def_is(gcfg, rd, rn, rv.id, lambda dn: dn.kind == "stmt" and isinstance(
@@ -1121,8 +1172,8 @@ def run(ctx: Context):
                                 for cc in calls_at(sn, "set_node"):
                                     for i, a in enumerate(cc.args[:3]):
                                         want = mps[i] if i < len(mps) else None
-                                        aa = gnorm.resolve(sn, a)
-                                        r.require(isinstance(aa, ast.Name) and aa.id == want, g, g.loc(cc),
+                                        dep = depends_on(g, a)
+                                        r.require(want in dep and not {q for q in mps if q != want and q in dep}, g, g.loc(cc),
                                                   "%s.set_node is given %s where the operation's %s belongs" % (X, src(g, a), want))
                         for it in loops:
                             targets = {s_ for s_ in node_stores(it)}
@@ -1151,7 +1202,9 @@ def run(ctx: Context):
                     # (d) a modifier built inside a callback: the callback is registered on the returned Deferred
                     if outer is not None:
                         ocfg = outer.cfg()
-                        orets = {rn.ast.value.id for rn in ocfg.find(is_return) if isinstance(rn.ast.value, ast.Name)}
+                        onorm = FlowNorm(outer)
+                        orets = {_returned(ocfg, onorm, rn) for rn in ocfg.find(is_return) if rn.ast.value is not None}
+                        orets = {x.id for x in orets if isinstance(x, ast.Name)}
                         regs = [x for x in registrations(outer) if x.recv in orets and isinstance(x.target, ast.Name)
                                 and x.target.id == g.name]
                         if not regs:
